@@ -313,7 +313,7 @@ func c13RunW(c *fw.Case, w string) {
 		for g := 0; g < G; g++ {
 			for i := 0; i < iters; i++ {
 				var sql, feat string
-				switch c.Intn(11) {
+				switch c.Intn(12) {
 				case 9:
 					// the ON expression panics for the key groups whose z1 is NULL, while the
 					// other key groups are still being evaluated: an error, never a dead-lock
@@ -334,7 +334,7 @@ func c13RunW(c *fw.Case, w string) {
 						// (a CTE that has not been read serialises the join by itself)
 						sql = strings.TrimPrefix(sql, "WITH c9 AS (SELECT rid FROM t1) ")
 					}
-				case 5:
+				case 5, 11:
 					// background calls that are handed whole rows of a derived table and read them
 					q := gen.Pick(c.R, []string{"SPIN", "SPINASYNC", "ASYNC", "SPIN"})
 					sql, feat = gen.Pick(c.R, []string{"SELECT "+q+".VBGREAD(x) AS v FROM (SELECT * FROM t1) x", "SELECT "+q+".VBGREAD((SELECT * FROM `<-.u1`)) AS v FROM t1", "WITH c AS (SELECT * FROM t1) SELECT "+q+".VBGREAD(x) AS v FROM c x"}), "par.bg-reads-derived-row"
